@@ -162,6 +162,11 @@ def run(chk):
             chk.fail_oracle("determinism:output-bytes", f"{len(ds)} different ninja/info outputs in {len(runs)} identical runs", {"project": p, "runs": runs})
         elif len(ts) > 1 and ss == {"ok"}:
             chk.fail_oracle("determinism:build-set", "set of reported builds differs between identical runs", {"project": p, "runs": runs})
+    # (3) a tree with a local import, edited between two runs in one build directory: the run after the edit must write what a run
+    # with an empty build directory writes for the same tree and command line (imports are outside the model: oracle only)
+    from . import c08
+    for job, out in common.parallel_map(c08.import_worker, [(chk.seed + 77, i) for i in range(6 if chk.tier == "quick" else 120)]):
+        c08.judge_import(chk, job, out, prefix="determinism")
     chk.assumptions = ["schedules and hash seeds are sampled (K fresh processes, 6 thread counts), not enumerated",
                        "rayon's indexed collect preserves input order; RandomState seeds differ per process (std behaviour)"]
     return chk.finish()
